@@ -6,34 +6,28 @@ import (
 	"github.com/tidwall/geojson/geometry"
 )
 
-func gen(n int) []geometry.Point {
-	out := make([]geometry.Point, n)
-	for i := range out {
-		switch i % 6 {
-		case 0:
-			out[i] = geometry.Point{X: -64, Y: -64}
-		case 1:
-			out[i] = geometry.Point{X: 0, Y: float64(i%64) - 32}
-		case 2:
-			out[i] = geometry.Point{X: 64, Y: 64}
-		case 3:
-			out[i] = geometry.Point{X: float64(i%64) - 32, Y: 0}
-		case 4:
-			out[i] = geometry.Point{X: 32, Y: 32}
-		default:
-			out[i] = geometry.Point{X: 0, Y: 0}
-		}
-	}
-	return out
-}
-
 func main() {
-	pts := gen(64)
-	for _, e := range []float64{5e-324, 0.5, 0.25} {
-		l := geometry.NewLine([]geometry.Point{{X: e, Y: 0}, {X: e, Y: e}}, nil)
-		for _, o := range []*geometry.IndexOptions{{Kind: geometry.None}, {Kind: geometry.RTree, MinPoints: 1}, {Kind: geometry.QuadTree, MinPoints: 1}} {
-			p := geometry.NewPoly(pts, nil, o)
-			fmt.Println(e, o.Kind, p.ContainsLine(l), p.ContainsPoint(geometry.Point{X: e, Y: 0}), p.ContainsPoint(geometry.Point{X: e, Y: e}))
+	for _, n := range []int{34, 40, 66} {
+		out := make([]geometry.Point, n)
+		for i := range out {
+			s := 1.0
+			if i%2 == 1 {
+				s = -1
+			}
+			out[i] = geometry.Point{X: s * 1.7e308 * float64(i%5+1) / 5, Y: -s * 1.7e308 * float64(i%3+1) / 3}
+		}
+		l := geometry.NewLine(out, &geometry.IndexOptions{Kind: geometry.QuadTree, MinPoints: 1})
+		fmt.Println(l.Rect(), len(l.Index().([]byte)))
+		for _, q := range []geometry.Rect{{Min: geometry.Point{X: 1e307, Y: 1e307}, Max: geometry.Point{X: 2e307, Y: 2e307}}, {Min: geometry.Point{X: 1.6e308, Y: -1.7e308}, Max: geometry.Point{X: 1.7e308, Y: -1.6e308}}} {
+			c := 0
+			l.Search(q, func(geometry.Segment, int) bool { c++; return true })
+			b := 0
+			for i := 0; i < l.NumSegments(); i++ {
+				if l.SegmentAt(i).Rect().IntersectsRect(q) {
+					b++
+				}
+			}
+			fmt.Println(n, c, b)
 		}
 	}
 }
